@@ -155,6 +155,20 @@ RevStart ==
     /\ plan' = [plan EXCEPT !.ri = Top1.r]
     /\ todo' = Rest /\ UNCHANGED <<out, outer, moffs>>
 
+\* Optional filter on structural streams (knob K.sfilter): "none" | "flate" (zlib, stored blocks) |
+\* "pred" (PNG predictor rows, then zlib).  Returns [data, dict additions].
+FilterStruct(data, rowlen, d) ==
+    IF K.sfilter = "none" \/ rowlen = 0 THEN [data |-> data, d |-> d]
+    ELSE IF K.sfilter = "flate" THEN
+        [data |-> Cod!ZStored(data, K.zblock), d |-> MapPut(d, NameFilter, OName(NameFlateDecode))]
+    ELSE LET nrows == (Len(data) + rowlen - 1) \div rowlen
+             padded == data \o [i \in 1..(nrows * rowlen - Len(data)) |-> 32]
+             fts == [r \in 1..nrows |-> IF K.pngft = 5 THEN (r + 1) % 5 ELSE K.pngft]
+             enc == Cod!PngEncode(padded, 1, rowlen, fts)
+             parms == ODict((NamePredictor :> NatObj(10 + (IF K.pngft = 5 THEN 5 ELSE K.pngft))) @@ (NameColumns :> NatObj(rowlen)))
+         IN [data |-> Cod!ZStored(enc, K.zblock),
+             d |-> MapPut(MapPut(d, NameFilter, OName(NameFlateDecode)), NameDecodeParms, parms)]
+
 -----------------------------------------------------------------------------
 (* Object streams (7.5.7): the members are spelled by the Producer itself into a separate buffer *)
 
@@ -177,7 +191,8 @@ CEnd ==
           LET header == Concat([i \in 1..Len(moffs) |-> AsciiDigits(moffs[i].num) \o <<32>> \o AsciiDigits(moffs[i].off) \o hs])
               content == header \o out \o tail
               d == (NameType :> OName(NameObjStm)) @@ (NameN :> NatObj(Len(moffs))) @@ (NameFirst :> NatObj(Len(header)))
-          IN todo' = ObjItems([num |-> Top1.cnum, gen |-> 0, val |-> OStream(d, content)], 0) \o Rest
+              fl == FilterStruct(content, K.crow, d)
+          IN todo' = ObjItems([num |-> Top1.cnum, gen |-> 0, val |-> OStream(fl.d, fl.data)], 0) \o Rest
     /\ out' = outer /\ outer' = <<>> /\ moffs' = <<>>
     /\ UNCHANGED <<offs, plan>>
 
@@ -274,7 +289,8 @@ XrefStreamObj ==
            d0 == MapPut(MapPut(TrailerOf(plan.ri), NameType, OName(NameXRef)),
                         NameW, OArr(<<NatObj(w[1]), NatObj(w[2]), NatObj(w[3])>>))
            d1 == IF runs = <<<<0, SizeVal>>>> /\ K.noindex THEN d0 ELSE MapPut(d0, NameIndex, index)
-           items == ObjItems([num |-> self, gen |-> 0, val |-> OStream(d1, data)], 0)
+           fl == FilterStruct(data, w[1] + w[2] + w[3], d1)
+           items == ObjItems([num |-> self, gen |-> 0, val |-> OStream(fl.d, fl.data)], 0)
        IN todo' = <<[items[1] EXCEPT !.nosep = TRUE]>> \o Tail(items) \o Rest
     /\ UNCHANGED <<out, offs, plan, outer, moffs>>
 
